@@ -594,7 +594,9 @@ func parseRaceLogs(prefix, scn string) []violation {
 //     written by the refresh, read by the routing of every request;
 //   - the service configuration of the redis processor, swapped by a plain pointer write in config.Update and
 //     read by request goroutines (the configuration objects themselves are built by the caller of the update,
-//     in the race pass that is the harness).
+//     in the race pass that is the harness);
+//   - the TCP processor's configuration pointer and balancer, swapped the same way;
+//   - the endpoint slice of a SvcAddEvent, which aliases the configuration store's own slice.
 func acceptedRace(fns []string) bool {
 	if len(fns) != 2 {
 		return false
@@ -606,6 +608,21 @@ func acceptedRace(fns []string) bool {
 	cfgReaders := map[string]bool{"proc/redis.(*compressFilter).Do": true, "proc/redis.(*compressFilter).Compress": true, "proc/redis.(*upstream).chooseHost": true, "proc/redis.(*upstream).createClient": true, "proc/redis.(*config).Raw": true, "proc/redis.(*config).Update": true}
 	for i := 0; i < 2; i++ {
 		if (fns[i] == "proc/redis.(*config).Update" || fns[i] == "<harness>") && cfgReaders[fns[1-i]] {
+			return true
+		}
+	}
+	// the TCP processor does the same with its configuration pointer and its balancer (tcpProc.cfg, tcpProc.lb:
+	// plain writes in OnSvcConfigUpdate, read by HandleConn/dial of every connection)
+	tcpCfg := map[string]bool{"proc/tcp.(*tcpProc).HandleConn": true, "proc/tcp.(*tcpProc).dial": true, "proc/tcp.(*tcpProc).OnSvcConfigUpdate": true}
+	for i := 0; i < 2; i++ {
+		if (fns[i] == "proc/tcp.(*tcpProc).OnSvcConfigUpdate" || fns[i] == "<harness>") && tcpCfg[fns[1-i]] {
+			return true
+		}
+	}
+	// a SvcAddEvent aliases the store's endpoint slice (the store shifts/appends in place under its lock, the
+	// controller reads the event without it)
+	for i := 0; i < 2; i++ {
+		if fns[i] == "controller.endpointsToHosts" && (fns[1-i] == "config.(*Config).handleSvcEndpointUpdate" || fns[1-i] == "<harness>") {
 			return true
 		}
 	}
